@@ -757,6 +757,29 @@ def batchMapDoc {β : Type} (K : Consts) (env : Env) (kt : Ty) (pick : BatchEntr
     (es : List BatchEntry) : Option Doc :=
   (keyedDocs K env kt enc (es.filterMap (fun e => (pick e).map (fun b => (e.key, b))))).map (wcfg K env).finish
 
+/-- the element type of a collection response: a finder's declared return type, else the entity -/
+def elemTy (r : ResSpec) : Option Ty :=
+  match r.method.ret with
+  | some t => some t
+  | Option.none => r.schema.map Ty.ref
+
+/-- `WriteArray(keyWriter("elements"), f.Elements, V.MarshalRestLi)` -/
+def encElems (K : Consts) (env : Env) (ty : Ty) (vs : List Value) : Option (List Doc) :=
+  mapM' (fun v => toOpt (encode (wcfg K env) encFuel [K.fElements, Gen.wildCard] ty v)) vs
+
+/-- the optional `paging` member -/
+def encPaging (K : Consts) (env : Env) (paging : Option Value) : Option (List (Bytes × Doc)) :=
+  match paging with
+  | Option.none => some []
+  | some p => (toOpt (encode (wcfg K env) encFuel [K.fPaging] (.ref tCollMeta) p)).map (fun d => [(K.fPaging, d)])
+
+/-- the `metadata` member of a finder that declares one -/
+def encMetadata (K : Consts) (env : Env) (m : MethodSpec) (metadata : Option Value) : Option (List (Bytes × Doc)) :=
+  match m.metadata, metadata with
+  | some mt, some mv => (toOpt (encode (wcfg K env) encFuel [K.fMetadata] mt mv)).map (fun d => [(K.fMetadata, d)])
+  | Option.none, _ => some []
+  | some _, Option.none => Option.none
+
 /-- what the `Register*` adapter and `ServeHTTP` make of the resource's reply -/
 def serverRespond (K : Consts) (env : Env) (r : ResSpec) (reply : Reply) : Option WireResp :=
   let cfg := wcfg K env
@@ -786,20 +809,13 @@ def serverRespond (K : Consts) (env : Env) (r : ResSpec) (reply : Reply) : Optio
       (mapM' (createdDoc K env kt (if m.returnEntity then r.schema else Option.none)) cs).map (fun ds =>
         ⟨K.R.srvInitialStatus, Option.none, false, js (cfg.finish [(K.fElements, .arr ds)])⟩))
   | .elements vs paging metadata =>
-    let et : Option Ty := match m.ret with | some t => some t | Option.none => r.schema.map Ty.ref
-    et.bind (fun ty =>
-      (mapM' (fun v => toOpt (encode cfg encFuel [K.fElements, Gen.wildCard] ty v)) vs).bind (fun ds =>
-        let pg : Option (List (Bytes × Doc)) := match paging with
-          | Option.none => some []
-          | some p => (toOpt (encode cfg encFuel [K.fPaging] (.ref tCollMeta) p)).map (fun d => [(K.fPaging, d)])
-        let md : Option (List (Bytes × Doc)) := match m.metadata, metadata with
-          | some mt, some mv => (toOpt (encode cfg encFuel [K.fMetadata] mt mv)).map (fun d => [(K.fMetadata, d)])
-          | Option.none, _ => some []
-          | some _, Option.none => Option.none
-        match pg, md with
-        | some pg, some md =>
-          some ⟨K.R.srvInitialStatus, Option.none, false, js (cfg.finish ((K.fElements, .arr ds) :: md ++ pg))⟩
-        | _, _ => Option.none))
+    (match elemTy r with
+    | Option.none => Option.none
+    | some ty =>
+      match encElems K env ty vs, encMetadata K env m metadata, encPaging K env paging with
+      | some ds, some md, some pg =>
+        some ⟨K.R.srvInitialStatus, Option.none, false, js (cfg.finish ((K.fElements, .arr ds) :: md ++ pg))⟩
+      | _, _, _ => Option.none)
   | .action v =>
     m.ret.bind (fun ty => (toOpt (encode cfg encFuel [K.fValue] ty v)).map (fun d =>
       ⟨K.R.srvInitialStatus, Option.none, false, js (cfg.finish [(K.fValue, d)])⟩))
@@ -978,8 +994,7 @@ def clientReturns (K : Consts) (env : Env) (keq : Value → Value → Bool) (r :
           | _ => .bad)
         | _ => .bad)) .createdMany)
   | .get_all | .finder =>
-    let et : Option Ty := match m.ret with | some t => some t | Option.none => r.schema.map Ty.ref
-    decRet ((parseJson body).bind (fun t => match t, et with
+    decRet ((parseJson body).bind (fun t => match t, elemTy r with
       | .obj kvs, some ty =>
         if !knownOnly ([K.fElements, K.fPaging] ++ (if m.metadata.isSome then [K.fMetadata] else [])) kvs then .bad else
         (match memberOf K.fElements kvs with
